@@ -5,7 +5,9 @@ not cached (C13.a); thresholds are evaluated per use and with the precedence tim
 deltas, seed and clean-up tasks set the manager's threshold from the task (C13.b); a failed
 refresh keeps the old tile: what is stored is the fetch result and nothing else, the error
 path cannot reach the store, creators never remove tiles (C13.c); the re-check of a meta tile
-uses the staleness-aware test for all its tiles (C13.d)."""
+uses the staleness-aware test for all its tiles (C13.d).
+Added in round 4: a refresh rule of the configuration is evaluated per request, only the seed /
+clean-up tools set a fixed threshold; the bulk creator keeps the do-not-cache mark (C13.i)."""
 import ast
 
 from ..engine import rule
